@@ -89,31 +89,41 @@ def parse_kv(tokens):
 
 def parse_trace(text):
     """-> dict(steps=[(S dict, E token list)], inline=[(after_step_index, tokens)], choices, M, bug, header)"""
-    steps, inline, cur_s = [], [], None
-    res = {"steps": steps, "inline": inline, "choices": [], "M": None, "bug": None, "header": {}}
+    steps, inline, cur = [], [], [None]
+    res = {"steps": steps, "inline": inline, "choices": [], "M": None, "bug": None, "header": {}, "garbled": None}
     for line in text.split("\n"):
         if not line:
             continue
-        t = line.split(" ")
-        tag = t[0]
-        if tag == "S":
-            cur_s = parse_kv(t[2:])
-            cur_s["k"] = int(t[1])
-        elif tag == "E":
-            steps.append((cur_s, t[2:]))
-            cur_s = None
-        elif tag == "I":
-            inline.append((len(steps), t[1:]))
-        elif tag == "C":
-            res["choices"] = t[1:] if len(t) > 1 and t[1] else []
-        elif tag == "M":
-            res["M"] = parse_kv(t[1:])
-        elif tag == "H":
-            res["header"] = parse_kv(t[1:])
-        elif tag == "BUG":
-            res["bug"] = line[4:]
-    res["last_S"] = cur_s      # state line of a step that was never taken (deadlock / budget)
+        try:
+            _parse_line(line, res, steps, inline, cur)
+        except (ValueError, IndexError, KeyError):
+            res["garbled"] = line[:200]      # a crash cut the output short
+    res["last_S"] = cur[0]      # state line of a step that was never taken (deadlock / budget)
     return res
+
+
+def _parse_line(line, res, steps, inline, cur):
+    t = line.split(" ")
+    tag = t[0]
+    if tag == "S":
+        st = parse_kv(t[2:])
+        st["k"] = int(t[1])
+        for key in ("tc", "R", "P", "X", "h"):
+            st[key]                      # a truncated state line is garbled, not a state
+        cur[0] = st
+    elif tag == "E":
+        steps.append((cur[0], t[2:]))
+        cur[0] = None
+    elif tag == "I":
+        inline.append((len(steps), t[1:]))
+    elif tag == "C":
+        res["choices"] = t[1:] if len(t) > 1 and t[1] else []
+    elif tag == "M":
+        res["M"] = parse_kv(t[1:])
+    elif tag == "H":
+        res["header"] = parse_kv(t[1:])
+    elif tag == "BUG":
+        res["bug"] = line[4:]
 
 
 _tl = threading.local()
@@ -121,7 +131,7 @@ _cpu_counter = [0]
 _cpu_lock = threading.Lock()
 
 
-def run_case(exe, case, scratch, timeout=60):
+def run_case(exe, case, scratch, timeout=15):
     """Run one case in its own process.  Returns the parsed result; result['crash'] is None or text."""
     if not hasattr(_tl, "path"):
         with _cpu_lock:
@@ -144,7 +154,7 @@ def run_case(exe, case, scratch, timeout=60):
     return res
 
 
-def run_many(exe, cases, scratch, workers=NWORKERS, timeout=60):
+def run_many(exe, cases, scratch, workers=NWORKERS, timeout=15):
     with concurrent.futures.ThreadPoolExecutor(max_workers=workers) as ex:
         return list(ex.map(lambda c: run_case(exe, c, scratch, timeout), cases))
 
@@ -156,6 +166,9 @@ W_EVENTS = ("connectBegin", "connectEnd", "destroyBegin", "destroyEnd")
 
 def fan_event(ev):
     """E tokens (thread, event, args...) -> acceptor event tokens or None when invisible to the Fan model"""
+    if len(ev) < 2:
+        return None
+    ev = list(ev) + ["", ""]          # a crash may have cut the line short
     th, e = ev[0], ev[1]
     if th == "D":
         if e in ("lock", "unlock") and ev[2] == "tc":
@@ -181,7 +194,7 @@ def fan_event(ev):
         return None
     if th in ("G", "Z", "-"):
         # watchdog / signals thread / clock: outside the Fan model unless they touch the protocol objects
-        if len(ev) > 2 and ev[2] == "tc" and e in ("lock", "unlock", "wait", "signal", "relock", "wake"):
+        if ev[2] == "tc" and e in ("lock", "unlock", "wait", "signal", "relock", "wake"):
             return [th, e]          # unknown to the acceptor -> reject (C20's model covers these)
         return None
     return None
@@ -304,7 +317,10 @@ def offenders(res):
     """-> list of (property, signature, what): the property texts decided on the observable behaviour"""
     out = []
     if res["crash"] is not None:
-        out.append(("*", "crash", "harness process aborted (sanitizer / assertion / signal / timeout): " + res["crash"][-500:]))
+        txt = res["crash"]
+        k = txt.find("ERROR: ")
+        out.append(("*", "crash", "harness process aborted (sanitizer / assertion / signal / timeout): " +
+                    (txt[k:k + 160] if k >= 0 else txt[:160]).replace("\n", " ")))
         return out
     if res["bug"]:
         if "not a target" in res["bug"]:
@@ -376,7 +392,7 @@ def detect_variant(exe, scratch):
 
 
 # ---------------------------------------------------------------------------- exhaustive exploration
-def explore(exe, scratch, base_case, max_spurious, on_result, max_runs=400000, batch=64):
+def explore(exe, scratch, base_case, max_spurious, on_result, max_runs=400000, batch=64, stop=None):
     """Stateful DFS over all schedules of `base_case` (yield fan): every (state, choice) edge is executed at
     least once, states identified by the harness's signature (per-thread event history + shared state).
     Each run replays a prefix and continues with the first enabled thread.  on_result(res) sees every run."""
@@ -384,7 +400,7 @@ def explore(exe, scratch, base_case, max_spurious, on_result, max_runs=400000, b
     stack = [[]]
     runs = 0
     edges = 0
-    while stack and runs < max_runs:
+    while stack and runs < max_runs and not (stop and stop()):
         todo = [stack.pop() for _ in range(min(batch, len(stack)))]
         cases = [dict(base_case, strategy="list", choices=p, spurious=None) for p in todo]
         results = run_many(exe, cases, scratch)
